@@ -2,8 +2,9 @@
 time. Each `known` entry names a signature implemented here: a predicate over the failing case, so
 that a different violation of the same property is still reported. `fixed` entries suppress nothing."""
 import json
+import os
 
-_F = json.load(open('/verif/known_findings.json'))
+_F = json.load(open(os.environ.get('VERIF_HOME', '/verif') + '/known_findings.json'))
 
 SIGNATURES = {}
 
@@ -21,6 +22,26 @@ def _s13(case, msg):
     # header name, (b) every decoded condition was sent, (c) the decoded set is smaller than what was sent; any other
     # failure of the same case is reported first (never masked)
     return case.get('op') == 'decode' and msg.startswith('S13 C11.headers_preserved')
+
+
+@signature('evict_between_filter_and_apply')
+def _s15(case, msg):
+    # S15: the reported name was evicted between the interest filter and UpdateResource of a torn response handler;
+    # any other way of reaching "cached but not subscribed" is still a violation
+    if case.get('op') != 'sys' or not msg.startswith('C07.atomic_update: '):
+        return False
+    names = msg[len('C07.atomic_update: '):].split(' ', 1)[0].split(',')
+    explained = set()
+    between = False
+    for st in case.get('steps', []):
+        o = st.get('o')
+        if o == 'filter':
+            between = True
+        elif o == 'apply':
+            between = False
+        elif o == 'evict' and between:
+            explained.add(f"{st.get('rt')}/{st.get('n')}")
+    return bool(names) and all(x in explained for x in names)
 
 
 def match(pid, case, msg):
